@@ -10,7 +10,7 @@ assembly machine runs from s to s' without stopping.  `Placed C pc c`: the code 
 index pc.  `VarsRel cx sc env locals args`: the compile-time scopes `sc` (vars.go) and the machine's slots
 describe the run-time environment `env`.
 -/
-import NeoModel.Proofs.CompileStmt
+import NeoModel.Proofs.CompileLabels
 namespace NeoModel.C14
 open NeoModel.MiniVm NeoModel.MiniVm.Asm NeoModel.MiniGo NeoModel.Compile NeoModel.CompileProofs
 
@@ -121,6 +121,84 @@ example : ∃ n, Asm.run (compFunc [] exD 0 1).1 n { pc := 0, stack := [.int 5, 
     (by simp [exD, Simple, NoCall, Strict]) rfl (by rfl) ⟨[], [], by simp, rfl⟩ (by decide)
   simpa using this
 end example_func
+
+/-! ## Stage 4: loops, break/continue, calls and recursion, label uniqueness
+
+`Allowed il s`: every MiniGo statement except `var x T = e` (whose compiled scoping differs from Go's, see
+`varDecl_shadow_witness`); `break`/`continue` only inside a loop body (`il`), a `for` post statement that declares
+nothing, call statements that are calls, `op=` with an arithmetic operator.  MiniGo has no labeled
+break/continue, so those stay outside.  The invocation-stack bound: the VM FAULTs beyond 1024 nested contexts, Go
+does not; the theorems are for evaluations whose fuel (an upper bound of the call depth) fits.  -/
+
+/-- (4) label marks are unique in the compiler's own output, and every function's code sits in it: the hypotheses of
+    the simulation theorems hold for `compProg P`. -/
+theorem compile_labels_unique (P : Prog) : (labelsOf (compProg P)).Nodup ∧ ProgCode (compProg P) P :=
+  ⟨(progCode_compProg P).nodup, progCode_compProg P⟩
+
+/-- (1) compile_stmt_correct with loops and break/continue (and calls): forward simulation for every allowed
+    statement of a function of `P`, inside the compiled program.  Normal completion: the code runs to its end, stack
+    and invocation stack unchanged, the slots describe the new environment.  `return`: a RET is reached with the
+    value pushed.  `break`/`continue`: the enclosing loop's end / post mark is reached with the stack unchanged
+    and the slots describing the frames outside the `d` scopes that are left. -/
+theorem compile_stmt_correct_partial' (P : Prog) (hall : ∀ d ∈ P, Allowed false d.body) (cx : Ctx)
+    (htab : cx.funcs = funcTable P) (fuel : Nat)
+    (s : Stmt) (lp : LoopCtx) (d : Nat) (il : Bool) (st : St) (env : Env) (σ : State) (out : SOut)
+    (hal : Allowed il s) (hil : il = true → ∃ b c, lp = some (b, c)) (hd : 1 ≤ d ∨ ∃ b, s = .block b)
+    (hex : exec fuel P env s = .ok out)
+    (hp : Placed (compProg P) σ.pc (compS cx lp s st).1)
+    (hrel : VarsRel cx st.scopes env σ.locals σ.args) (hwf : Wf st)
+    (hcnt : (compS cx lp s st).2.cnt ≤ σ.locals.length) (hdep : σ.frames.length + fuel < 1024) :
+    StmtPostF cx (compProg P) σ (σ.pc + (compS cx lp s st).1.length) (compS cx lp s st).2.scopes st.scopes lp d out :=
+  (allOK (progCode_compProg P) hall fuel).stmt cx htab s lp d il st env σ out hal hil hd hex hp hrel hwf hcnt hdep
+
+/-- (2) calls: a CALL of a function of the program whose Go evaluation returns `v` (recursion included) comes back
+    to the instruction after the CALL with `v` in place of the arguments and the caller's frame — slots,
+    arguments, rest of the stack, invocation stack — exactly as before (stack/slot discipline across CALL/RET). -/
+theorem compile_call_correct_partial (P : Prog) (hall : ∀ d ∈ P, Allowed false d.body) (fuel : Nat)
+    (f : String) (vs : List Val) (v : Val) (σ : State) (rest : List Val)
+    (hc : callF fuel P f vs = .ok v) (hs : σ.stack = vs ++ rest)
+    (hf : (compProg P)[σ.pc]? = some (.ins (.call (fnLabel P f)))) (hdep : σ.frames.length + fuel < 1024) :
+    Reach (compProg P) σ { σ with pc := σ.pc + 1, stack := v :: rest } :=
+  (allOK (progCode_compProg P) hall fuel).call f vs v σ rest hc hs hf hdep
+
+/-- (2) compile_func_correct without the call-free / loop-free restriction, program level: invoking function `f`
+    of the compiled program with the arguments on the stack halts with the value the Go semantics returns. -/
+theorem compile_prog_correct_partial (P : Prog) (hall : ∀ d ∈ P, Allowed false d.body)
+    (f : String) (vs rest : List Val) (v : Val) (fuel : Nat)
+    (hrun : callF fuel P f vs = .ok v) (hdep : fuel < 1024) :
+    ∃ pc0 n, findLabel (compProg P) (fnLabel P f) = some pc0 ∧
+      Asm.run (compProg P) n { pc := pc0, stack := vs ++ rest, locals := [], args := [], frames := [] } = .halt (v :: rest) :=
+  entry_halt (progCode_compProg P) hall hrun hdep
+
+/-! non-vacuity: recursion, a loop with continue and break, a call inside the loop
+      func fact(n int) int { if n <= 1 { return 1 }; return n * fact(n-1) }
+      func sum(n int) int { s := 0; for i := 0; i < n; i++ { if i == 3 { continue }; if i > 5 { break }; s += fact(i) }; return s } -/
+section example_prog
+def exFact : FuncDecl :=
+  { name := "fact", params := ["n"], hasResult := true,
+    body := .seq (.ite (.bin .le (.var "n") (.lit 1)) (.seq (.ret (some (.lit 1))) .skip) .none .skip)
+      (.seq (.ret (some (.bin .mul (.var "n") (.call1 "fact" (.bin .sub (.var "n") (.lit 1)))))) .skip) }
+def exSum : FuncDecl :=
+  { name := "sum", params := ["n"], hasResult := true,
+    body := .seq (.define "s" (.lit 0))
+      (.seq (.loop (.define "i" (.lit 0)) (some (.bin .lt (.var "i") (.var "n"))) (.inc "i")
+              (.seq (.ite (.bin .eq (.var "i") (.lit 3)) (.seq .cont .skip) .none .skip)
+              (.seq (.ite (.bin .gt (.var "i") (.lit 5)) (.seq .brk .skip) .none .skip)
+              (.seq (.opAssign "s" .add (.call1 "fact" (.var "i"))) .skip))))
+      (.seq (.ret (some (.var "s"))) .skip)) }
+def exP : Prog := [exFact, exSum]
+
+theorem exP_allowed : ∀ d ∈ exP, Allowed false d.body := by
+  intro d hd
+  simp only [exP, List.mem_cons, List.mem_nil_iff, or_false] at hd
+  rcases hd with rfl | rfl <;> simp [exFact, exSum, Allowed, NoDecl, Strict]
+
+example : callF 60 exP "sum" [.int 10] = .ok (.int 148) := by rfl
+example : ∃ pc0 n, findLabel (compProg exP) (fnLabel exP "sum") = some pc0 ∧
+    Asm.run (compProg exP) n { pc := pc0, stack := [.int 10], locals := [], args := [], frames := [] } = .halt [.int 148] := by
+  simpa using compile_prog_correct_partial exP exP_allowed "sum" [.int 10] [] (.int 148) 60 (by rfl) (by decide)
+example : (labelsOf (compProg exP)).Nodup := (compile_labels_unique exP).1
+end example_prog
 
 /-- The excluded case is a real difference between the compiler (as modelled, codegen.go:738-764) and Go:
     `func f(x int) int { r := 0; { var x int = x + 1; r = x }; return r + x }` returns 2x+1 in Go, while the
